@@ -70,6 +70,19 @@ pub mod signal_hook {
                 final(w).fs == old(w).fs, final(w).log == old(w).log,
                 same_but_fs(World { handlers: final(w).handlers, ..*old(w) }, *final(w)),
         { unimplemented!() }
+        // The plausible neighbours of `register` that make the *handler itself* terminate the process (second Ctrl-C quits at once, default
+        // action restored): the run then ends between two operations without writing the lock and without exiting by itself, which the
+        // properties exclude - a call is an obligation failure, not an unknown function.
+        #[verifier::external_body]
+        pub fn register_conditional_shutdown(signal: i32, status: i32, flag: Arc<AtomicBool>, Tracked(w): Tracked<&mut World>) -> (r: Result<SigId, IoError>)
+            requires
+                false, // [C02.abrupt,C18.abrupt]
+        { unimplemented!() }
+        #[verifier::external_body]
+        pub fn register_conditional_default(signal: i32, flag: Arc<AtomicBool>, Tracked(w): Tracked<&mut World>) -> (r: Result<SigId, IoError>)
+            requires
+                false, // [C02.abrupt,C18.abrupt]
+        { unimplemented!() }
     }
 }
 }
@@ -123,7 +136,7 @@ def build():
     # ---- stubs with the contracts proved elsewhere ----------------------------------------------------
     tmp = Unit("tmp")
     tmp2 = Unit("tmp2")
-    wired = [("C18.wired", "old(w).handlers.contains(2) && old(w).handlers.contains(15)")]
+    wired = [("C18.wired,C02.wired", "old(w).handlers.contains(2) && old(w).handlers.contains(15)")]
     u.raw("verus! {\npub mod config { pub use super::Context; }\npub mod codegen { pub mod generate { pub use super::super::{check_references, generate_code}; } }\n")
     chk = u_generate.check_references(tmp)
     gen = u_generate.generate_code(tmp)
@@ -154,10 +167,10 @@ def build():
     f.insert_at(ob + 1, " proof { axiom_decode(yaml@); assert(run_yaml(*w) == yaml@); reveal_strlit(\"\"); assert(\"\"@ =~= Seq::<char>::empty()); }")
 
     # ---- main -------------------------------------------------------------------------------------------------
-    f = u.real_fn(MAIN, "main", emit_name="breadlog_main", props=("C04", "C05", "C07", "C08", "C16", "C17", "C18"))
+    f = u.real_fn(MAIN, "main", emit_name="breadlog_main", props=("C02", "C04", "C05", "C07", "C08", "C16", "C17", "C18"))
     rules.sig(f, ret="res", world=True, name="breadlog_main")
     rules.r1_logs(f)
-    rules.r8_thread(f, [r"ProgArgs::parse\(", r"setup_context\(", r"signal_hook::flag::register\(",
+    rules.r8_thread(f, [r"ProgArgs::parse\(", r"setup_context\(", r"signal_hook::flag::register(?:_conditional_shutdown|_conditional_default)?\(",
                         r"codegen::generate::check_references\(", r"codegen::generate::generate_code\("])
     f.requires += [
         "old(w).fs == old(w).orig", "old(w).intended == Map::<Seq<char>, Seq<u8>>::empty()", "old(w).alloc == Map::<Seq<char>, int>::empty()",
